@@ -71,6 +71,7 @@ def verify_function(index: SourceIndex, c: Contract, registry: Optional[dict] = 
     assumed: list[str] = []
     from .values import FloatMode
     FloatMode.mode = c.float_mode
+    FloatMode.abstract = bool(getattr(c, "float_abstract", False))
     FloatMode.anchors = tuple(c.anchors)
     try:
         for case in c.cases:
@@ -158,6 +159,7 @@ def verify_function(index: SourceIndex, c: Contract, registry: Optional[dict] = 
         rep.status = "error"
         rep.message = f"{type(e).__name__}: {e}\n{traceback.format_exc()[-1500:]}"
     FloatMode.mode = "ieee"
+    FloatMode.abstract = False
     FloatMode.anchors = ()
     rep.vcs = vcs
     rep.dropped = dropped
